@@ -371,7 +371,15 @@ impl State {
     }
 
     fn build_from_file(&mut self, path: Xstr, mode: ContextMode) -> Xresult {
-        let s = crate::file::fs_overlay::read_source_file(&path)?;
+        let s = crate::file::fs_overlay::read_source_file(&path).map_err(|e| {
+            // no token is to blame for a file that cannot be read, least of all the one an
+            // earlier failure pointed at
+            self.last_error = Some(ErrorContext {
+                err: e.clone(),
+                location: None,
+            });
+            e
+        })?;
         let mark = self.build_mark();
         self.context_open(mode)?;
         self.intern_source(s.into(), Some(path))?;
